@@ -53,6 +53,91 @@ fn outcome_of_nth(text: &str, n: usize) -> String {
     format!("accepted, type {static_type}, {result}")
 }
 
+/// child side of the cross-process comparison (`vcheck C05 child <list.json>`): one outcome per line
+pub fn child(path: &str) -> i32 {
+    let Ok(text) = std::fs::read_to_string(path) else {
+        return 2;
+    };
+    let Ok(texts) = serde_json::from_str::<Vec<String>>(&text) else {
+        return 2;
+    };
+    for t in texts {
+        let o = on_fresh_thread(move || outcome_of(&t));
+        println!("{}", serde_json::to_string(&o).unwrap());
+    }
+    0
+}
+
+/// the outcomes of `texts` in `children` fresh processes of this executable (process-wide state such
+/// as lazily built statics gets new hash keys in each)
+fn in_children(texts: &[String], children: usize, meanwhile: impl FnOnce()) -> Result<Vec<Vec<String>>, &'static str> {
+    static N: std::sync::atomic::AtomicU64 = std::sync::atomic::AtomicU64::new(0);
+    let dir = std::env::temp_dir().join(format!("vcheck-c05-{}", std::process::id()));
+    std::fs::create_dir_all(&dir).map_err(|_| "scratch directory")?;
+    let file = dir.join(format!("list{}.json", N.fetch_add(1, std::sync::atomic::Ordering::Relaxed)));
+    std::fs::write(&file, serde_json::to_string(texts).unwrap()).map_err(|_| "scratch file")?;
+    let exe = std::env::current_exe().map_err(|_| "current_exe")?;
+    let mut kids = vec![];
+    for _ in 0..children {
+        let kid = std::process::Command::new(&exe)
+            .args(["C05", "child"])
+            .arg(&file)
+            .stdin(std::process::Stdio::null())
+            .stdout(std::process::Stdio::piped())
+            .stderr(std::process::Stdio::null())
+            .spawn()
+            .map_err(|_| "spawn child")?;
+        // drain each child's output on a thread of its own (a full pipe would stall the child)
+        kids.push(std::thread::spawn(move || kid.wait_with_output()));
+    }
+    meanwhile();
+    let mut out = vec![];
+    let mut failed = false;
+    for kid in kids {
+        match kid.join() {
+            Ok(Ok(o)) => {
+                let lines: Vec<String> = String::from_utf8_lossy(&o.stdout).lines().filter_map(|l| serde_json::from_str::<String>(l).ok()).collect();
+                if !o.status.success() || lines.len() != texts.len() {
+                    failed = true;
+                }
+                out.push(lines);
+            }
+            _ => failed = true,
+        }
+    }
+    let _ = std::fs::remove_file(&file);
+    if failed {
+        return Err("child process did not finish its list");
+    }
+    Ok(out)
+}
+
+/// first program whose outcome in some child process differs from its outcome here
+fn process_diff(texts: &[String], children: usize, stats: &mut Stats) -> Result<Option<(usize, String)>, &'static str> {
+    let mut mine: Vec<String> = vec![];
+    let theirs = in_children(texts, children, || {
+        mine = texts
+            .iter()
+            .map(|t| {
+                let t = t.clone();
+                on_fresh_thread(move || outcome_of(&t))
+            })
+            .collect();
+    })?;
+    stats.evals((texts.len() * (children + 1)) as u64);
+    for (i, t) in texts.iter().enumerate() {
+        if has_order(t) {
+            stats.nontrivial(t);
+        }
+        for (c, outs) in theirs.iter().enumerate() {
+            if outs[i] != mine[i] {
+                return Ok(Some((i, format!("`{t}`\n  in this process: {}\n  in child process {c}: {}", mine[i], outs[i]))));
+            }
+        }
+    }
+    Ok(None)
+}
+
 fn on_fresh_thread<T: Send + 'static>(f: impl FnOnce() -> T + Send + 'static) -> T {
     std::thread::Builder::new().stack_size(256 << 20).spawn(f).expect("spawn").join().expect("join")
 }
@@ -106,6 +191,23 @@ impl Property for C05Prop {
                 })
                 .collect();
             return Some(json!({"kind": "queries", "u": members.join("|"), "reps": tier.of(6, 24)}));
+        }
+        if tape.chance(1, 8) {
+            // several programs run one after the other on one thread, three times round: what a program
+            // yields does not depend on what ran before it
+            let n = 2 + tape.below(3);
+            let mut texts = vec![];
+            for _ in 0..n {
+                if tape.bool()
+                    && let Ok(built) = case::build(tape, Profile::GENERAL)
+                    && case::import_files(&built.program).is_empty()
+                {
+                    texts.push(case::print(&built.program, Hide::None));
+                    continue;
+                }
+                texts.push(matrix_call(tape.below(CATALOGUE.len()), tape.below(UNARY.len()), tape.below(8)));
+            }
+            return Some(json!({"kind": "history", "texts": texts, "rounds": 3}));
         }
         match tape.weighted(&[3, 2, 2]) {
             0 => {
@@ -192,6 +294,65 @@ impl Property for C05Prop {
                 stats.sample(6, || json!({"program": text, "outcome": first, "repetitions": reps}));
                 Verdict::Pass
             }
+            "history" => {
+                let texts: Vec<String> = case["texts"].as_array().map(|a| a.iter().filter_map(|t| t.as_str().map(str::to_string)).collect()).unwrap_or_default();
+                let rounds = case["rounds"].as_u64().unwrap_or(3) as usize;
+                if texts.is_empty() {
+                    return Verdict::Discard("empty history");
+                }
+                let alone: Vec<String> = texts
+                    .iter()
+                    .map(|t| {
+                        let t = t.clone();
+                        on_fresh_thread(move || outcome_of(&t))
+                    })
+                    .collect();
+                let t2 = texts.clone();
+                let seen: Vec<String> = on_fresh_thread(move || {
+                    let mut out = vec![];
+                    for _ in 0..rounds {
+                        for t in &t2 {
+                            out.push(outcome_of(t));
+                        }
+                    }
+                    out
+                });
+                stats.evals((texts.len() * (rounds + 1)) as u64);
+                stats.label("history: programs run one after the other on one thread");
+                if texts.iter().any(|t| has_order(t)) {
+                    stats.nontrivial(&texts.join(" ;; "));
+                }
+                for (j, o) in seen.iter().enumerate() {
+                    let i = j % texts.len();
+                    if *o != alone[i] {
+                        return fail(
+                            "C05:history:outcome",
+                            format!(
+                                "`{}`\n  on a fresh thread: {}\n  as run number {} on a thread that ran the other programs of the case before: {o}\n  the programs, in order: {:?}",
+                                texts[i],
+                                alone[i],
+                                j + 1,
+                                texts
+                            ),
+                        );
+                    }
+                }
+                stats.sample(3, || json!({"history": texts, "rounds": rounds}));
+                Verdict::Pass
+            }
+            "process" => {
+                let texts: Vec<String> = case["texts"].as_array().map(|a| a.iter().filter_map(|t| t.as_str().map(str::to_string)).collect()).unwrap_or_default();
+                let children = case["children"].as_u64().unwrap_or(6) as usize;
+                stats.label("process: programs run in fresh processes");
+                match process_diff(&texts, children, stats) {
+                    Err(why) => Verdict::Inconclusive(why),
+                    Ok(Some((_, msg))) => fail("C05:process:outcome", msg),
+                    Ok(None) => {
+                        stats.sample(2, || json!({"programs_run_in_child_processes": texts.len(), "children": children, "first": texts.first()}));
+                        Verdict::Pass
+                    }
+                }
+            }
             "types" => {
                 let (ta, tb) = (case["a"].as_str().unwrap_or("int").to_string(), case["b"].as_str().unwrap_or("int").to_string());
                 if ta.contains('|') || ta.contains("struct{") || tb.contains('|') {
@@ -270,6 +431,60 @@ impl Property for C05Prop {
     }
 }
 
+const ORDER_SENSITIVE: [&str; 19] = [
+    "it := [1, \"a\"]~; it(); it(); it()",
+    "it := [1, \"a\", 2.5, ()]~; it(); it(); it(); it(); it()",
+    "c := mut 0; next := () -> int { c += 1; return *c; }; s := struct{a := next(), b := next(), c := next(), d := next()}; (s.a, s.b, s.c, s.d)",
+    "f := (x: (int, int)|(int, int, int)|(int, int, int, int)) -> int { return x.2; }",
+    "f := (x: (int, int)|(int, int, int)|(int, int, int, int)) -> int { return x.1; }; f((1, 2))",
+    "x := if true { [1] } else { mut 1 }; x",
+    "m := mod { a := 1; b := \"s\"; c := 2.5; d := [a]; }; (m.a, m.b, m.c, m.d)",
+    "t := [1, \"a\", 2.5]~ ? int|string $]; t",
+    "f := (x: int|string|float|()) -> int { return match x { i: int => 1, s: string => 2, o: float|() => 3, }; }; (f(1), f(\"s\"), f(2.5), f(()))",
+    "f := (x: struct{a: int, b: string}|struct{a: float, b: string}) -> any { return x.a; }; f(struct{a := 1, b := \"s\"})",
+    "f := (g: (int)->int|(float)->float) -> any { return g; }",
+    "[mut 1, mut \"s\"]",
+    "it := [mut 5]~ ? mut int; it(); c := it().1; c += 7; *c",
+    "it := [1]~ ? mut int|mut string; it(); c := it().1; if k: mut int = c { k += 1; }; c",
+    "t := [mut \"a\", \"b\", 1]~ ? string|mut string $]; t",
+    "t := [mut 1, 2, \"b\"]~ ? mut int|int $]; t",
+    "f := (x: string|mut string|int) -> any { return [x]~ ? mut string|string $]; }; (f(\"a\"), f(mut \"b\"), f(1))",
+    "total := mut 0; s := [1, 2, 3]~ $ 0 (acc: int, x: int) -> int { total += x; return acc + x; }; (s, *total)",
+    "(x: [int]|[string]) -> any { return x[0]; }",
+];
+
+/// a cell of the unary matrix together with a call on one of the catalogue's values of the operand type
+fn matrix_call(x: usize, t: usize, v: usize) -> String {
+    let x = &CATALOGUE[x];
+    let program = matrix::unary_program(x.ty, UNARY[t]);
+    if x.values.is_empty() {
+        return program;
+    }
+    format!("{program}; f({})", x.values[v % x.values.len()])
+}
+
+/// programs whose outcome hangs on process-wide or thread-wide state if anything does: empty sums and
+/// products (the helper is chosen among lazily built types), structs built at run time and tested by
+/// type (their types are recomputed per value), defaults of union types
+const STATEFUL: [&str; 16] = [
+    "[]~ $+",
+    "[]~ $*",
+    "x := []~ $+; x + 1",
+    "f := (a: [int]) -> int { return a~ $+; }; f([])",
+    "f := (a: [float]) -> float { return a~ $*; }; f([])",
+    "f := (a: [string]) -> string { return a~ $+; }; f([])",
+    "f := (it: ()->(bool, int)|()->(bool, string)) -> any { return it $+; }; f([]~)",
+    "c := mut 1; s := struct{a := *c + 1}; if v: struct{a: int} = s { \"int\" } else { \"not int\" }",
+    "c := mut 1.5; s := struct{a := *c + 1.0}; if v: struct{a: int} = s { \"int\" } else { \"not int\" }",
+    "c := mut \"text\"; s := struct{b := *c + \"\"}; if v: struct{b: string} = s { v.b } else { \"no field b\" }",
+    "kind := (s: struct{a: int|float}) -> int { return match s { v: struct{a: int} => 0, v: struct{a: float} => 1, => 2, }; }; res := mut [int] []; for x in [1, 1.5, 2, 2.5, 3, 3.5, 4.5, 5]~ { res += [kind(struct{a := x})]; }; *res",
+    "s := struct{a := 1 + 1}; if v: struct{a: int} = s { \"int\" } else { \"not int\" }",
+    "s := struct{a := 1.5 + 1.0}; if v: struct{a: int} = s { \"int\" } else { \"not int\" }",
+    "t := [struct{a := 1}, struct{a := \"s\"}, struct{b := 2}]~ ? struct{a: int} $]; t",
+    "it := [1, \"a\"]~ ? float|bool|(); it()",
+    "f := (x: any) -> int { return match x { v: [int] => 0, v: [any] => 1, v: struct{} => 2, => 3, }; }; (f([]), f([1]), f([\"s\"]), f(struct{a := 1}), f(1))",
+];
+
 /// everything the checker derives from a type when it is used as an operand
 fn queries(t: &Type) -> String {
     let one = |f: &dyn Fn() -> Option<Type>| match std::panic::catch_unwind(std::panic::AssertUnwindSafe(f)) {
@@ -311,27 +526,7 @@ pub fn run(session: &Session) -> i32 {
             cases.push(json!({"kind": "program", "text": matrix::unary_program(x.ty, t), "reps": reps}));
         }
     }
-    for text in [
-        "it := [1, \"a\"]~; it(); it(); it()",
-        "it := [1, \"a\", 2.5, ()]~; it(); it(); it(); it(); it()",
-        "c := mut 0; next := () -> int { c += 1; return *c; }; s := struct{a := next(), b := next(), c := next(), d := next()}; (s.a, s.b, s.c, s.d)",
-        "f := (x: (int, int)|(int, int, int)|(int, int, int, int)) -> int { return x.2; }",
-        "f := (x: (int, int)|(int, int, int)|(int, int, int, int)) -> int { return x.1; }; f((1, 2))",
-        "x := if true { [1] } else { mut 1 }; x",
-        "m := mod { a := 1; b := \"s\"; c := 2.5; d := [a]; }; (m.a, m.b, m.c, m.d)",
-        "t := [1, \"a\", 2.5]~ ? int|string $]; t",
-        "f := (x: int|string|float|()) -> int { return match x { i: int => 1, s: string => 2, o: float|() => 3, }; }; (f(1), f(\"s\"), f(2.5), f(()))",
-        "f := (x: struct{a: int, b: string}|struct{a: float, b: string}) -> any { return x.a; }; f(struct{a := 1, b := \"s\"})",
-        "f := (g: (int)->int|(float)->float) -> any { return g; }",
-        "[mut 1, mut \"s\"]",
-        "it := [mut 5]~ ? mut int; it(); c := it().1; c += 7; *c",
-        "it := [1]~ ? mut int|mut string; it(); c := it().1; if k: mut int = c { k += 1; }; c",
-        "t := [mut \"a\", \"b\", 1]~ ? string|mut string $]; t",
-        "t := [mut 1, 2, \"b\"]~ ? mut int|int $]; t",
-        "f := (x: string|mut string|int) -> any { return [x]~ ? mut string|string $]; }; (f(\"a\"), f(mut \"b\"), f(1))",
-        "total := mut 0; s := [1, 2, 3]~ $ 0 (acc: int, x: int) -> int { total += x; return acc + x; }; (s, *total)",
-        "(x: [int]|[string]) -> any { return x[0]; }",
-    ] {
+    for text in ORDER_SENSITIVE.iter().chain(STATEFUL.iter()) {
         cases.push(json!({"kind": "program", "text": text, "reps": reps * 4}));
     }
     // fillers of exhausted iterators over union types whose members contain unions themselves
@@ -370,6 +565,56 @@ pub fn run(session: &Session) -> i32 {
     }
     if !session.stopped() {
         session.run_tapes(&C05, session.tier.of(6_000, 200_000), 600, 0);
+    }
+    // after unrelated work: the hand-written programs one after the other on one thread
+    if !session.stopped() {
+        let mut texts: Vec<String> = STATEFUL.iter().map(|t| t.to_string()).collect();
+        texts.extend(ORDER_SENSITIVE.iter().map(|t| t.to_string()));
+        let mut cases = vec![json!({"kind": "history", "texts": texts, "rounds": 4})];
+        for x in 0..CATALOGUE.len() {
+            // every unary cell of one operand type, each called on a value of the type
+            let texts: Vec<String> = (0..UNARY.len()).map(|t| matrix_call(x, t, t)).collect();
+            cases.push(json!({"kind": "history", "texts": texts, "rounds": 2}));
+        }
+        session.run_enum(&C05, cases);
+    }
+    // in other processes: the hand-written programs, the unary matrix with calls and generated programs
+    if !session.stopped() {
+        let mut texts: Vec<String> = STATEFUL.iter().map(|t| t.to_string()).collect();
+        texts.extend(ORDER_SENSITIVE.iter().map(|t| t.to_string()));
+        for x in 0..CATALOGUE.len() {
+            for t in 0..UNARY.len() {
+                texts.push(matrix_call(x, t, x + t));
+            }
+        }
+        for data in session.sample_tapes(session.tier.of(600, 6000), 600, 7) {
+            let mut tape = Tape::new(data);
+            if let Ok(built) = case::build(&mut tape, Profile::GENERAL)
+                && case::import_files(&built.program).is_empty()
+            {
+                texts.push(case::print(&built.program, Hide::None));
+            }
+        }
+        let children = session.tier.of(6, 16);
+        session.set_extra("programs_run_in_child_processes", json!(texts.len()));
+        session.set_extra("child_processes", json!(children));
+        let mut st = Stats::default();
+        let diff = process_diff(&texts, children, &mut st);
+        st.label("process: programs run in fresh processes");
+        session.merge_stats(st);
+        match diff {
+            Ok(None) => {}
+            Ok(Some((i, _))) => {
+                // narrow to the one program (more children: the difference is a matter of chance)
+                let single = json!({"kind": "process", "texts": [texts[i]], "children": children * 3});
+                if !matches!(session.run_one(&C05, &single), Verdict::Fail(_)) {
+                    session.run_one(&C05, &json!({"kind": "process", "texts": texts, "children": children}));
+                }
+            }
+            Err(why) => {
+                *session.harness_error.lock().unwrap() = Some(format!("cross-process comparison: {why}"));
+            }
+        }
     }
     session.finish(
         "each case is parsed and run 6 (quick) / 24 (thorough) times, every repetition on a fresh thread (fresh hash keys): all unary cells of the operator x operand-type matrix (60 operand types incl. unions of tuples of different lengths, of structs, muts, arrays, functions, iterators), a hand-written list of order-sensitive programs (exhausted iterators over union element types, struct literals with effectful initialisers, modules, tuple unions, type filters with unions; 4x the repetitions), the documentation corpus, tape-generated typed programs and random binary matrix cells; acceptance, error kind, static type (union members and struct fields sorted by the harness) and canonical value must be identical across repetitions. For unions of 3-4 members of one kind with partially subsuming components, everything the checker derives from the union (field, index, element, cell-content, iterator-element, result and parameter types, tuple components and lengths) must be the same structure on every parse. For pairs of generated types: instances parsed on different threads must be ==, hash equally under one fixed hasher, answer `matches`, `|` (both orders) and conjoin identically. Non-trivial = the case contains a union with >= 2 members or a struct with >= 2 fields; distinct by text.",
